@@ -1,6 +1,8 @@
 """C04 - allgather replacement.  Proof about the global dataflow model; tie T3: the real sc_allgather runs on the
 simulated MPI under adversarial schedules, every rank's trace is co-simulated against the extracted per-rank
-program, and an independent oracle judges every receive buffer."""
+program, and an independent oracle judges every receive buffer.  Besides single calls (sc_allgather, the subgroup routine)
+the check runs HISTORIES: 2-5 calls of the three entry points back to back on one communicator, judged per call and co-simulated
+against the extracted hist_prog (coq/C04/AllgatherHist.v)."""
 import os, sys, json
 import vlib, mpitrace
 sys.path.insert(0, os.path.join(vlib.TOOLS, "c2g"))
@@ -35,7 +37,172 @@ def gen_cases(ctx):
         g = rng.randrange(1, P + 1)
         base = rng.randrange(0, P - g + 1)
         cases.append((P, rng.randrange(1 << 30), rng.choice(ADVS), rng.choice([1, 2, 5]), rng.randrange(1 << 16), 1, base, g))
+    cases += gen_histories(ctx)
     return cases
+
+
+ENTRY = {0: "sc_allgather", 1: "sc_allgather_recursive", 2: "sc_allgather_alltoall"}
+HSIZES = [0, 0, 1, 2, 3, 4, 8, 8, 12, 16, 24]      # multiples of 2/4/8: send/receive datatypes of different element size
+
+
+def gen_histories(ctx):
+    """HISTORIES (mode 2): 2-5 calls back to back on one communicator, no barrier, all three entry points, block sizes that
+    differ from call to call (zero included), groups that change from call to call.  The shapes are aimed at the case
+    splits of coq/C04/AllgatherHist.v and at the boundary between calls:
+      zero-then-data   an empty gather directly followed by a non-empty one (a stale empty message would be taken next)
+      same-size        equal sizes in consecutive calls (a stale message is visible only in the CONTENT)
+      shrinking        decreasing sizes (a stale message is longer than the next receive)
+      even-groups      P with an even group > threshold somewhere in the bisection (6, 8, 10, 11, 12, 13, ...)
+      sub-then-all     whole communicator, subgroups, whole communicator: ranks outside the subgroups run calls ahead
+      big-direct       sc_allgather_alltoall on a group ABOVE the threshold, sc_allgather_recursive on a group BELOW it
+      mixed            everything random"""
+    rng = ctx.rng
+    out = []
+    n = 170 if ctx.quick else 1700
+    shapes = ["zero-then-data", "same-size", "shrinking", "even-groups", "sub-then-all", "big-direct", "mixed"]
+    for i in range(n):
+        shape = shapes[i % len(shapes)]
+        P = rng.choice([2, 3, 5, 6, 7, 8]) if rng.random() < 0.35 else rng.randrange(1, 41)
+        if shape == "even-groups":
+            P = rng.choice([6, 8, 10, 11, 12, 13, 16, 20, 22, 23, 24, 26, 32, 40])
+        if shape in ("sub-then-all", "big-direct"):
+            P = max(P, rng.randrange(7, 41))
+        nc = rng.randrange(2, 6)
+
+        def group(kind=None):
+            if kind == "all" or P == 1:
+                return 0, P
+            g = rng.randrange(1, P + 1)
+            if kind == "big" and P > 6:
+                g = rng.randrange(6, P + 1)
+            if kind == "small":
+                g = rng.randrange(1, min(P, 5) + 1)
+            return rng.randrange(0, P - g + 1), g
+        calls = []
+        for k in range(nc):
+            e = rng.choice([0, 0, 1, 2])
+            bs = rng.choice(HSIZES)
+            base, g = group()
+            if shape == "zero-then-data":
+                bs = 0 if k % 2 == 0 else rng.choice([1, 3, 8, 12])
+                if rng.random() < 0.6:
+                    base, g = 0, P
+            elif shape == "same-size":
+                bs = calls[0][1] if calls else rng.choice([1, 4, 8])
+                base, g = (0, P) if rng.random() < 0.7 else (base, g)
+            elif shape == "shrinking":
+                bs = [24, 16, 8, 3, 0][k] if rng.random() < 0.5 else [12, 8, 4, 1, 0][k]
+                base, g = (0, P) if rng.random() < 0.7 else (base, g)
+            elif shape == "even-groups":
+                e = rng.choice([0, 1])
+                base, g = (0, P) if e == 0 or rng.random() < 0.5 else group("big")
+                bs = rng.choice([1, 4, 4, 8])
+            elif shape == "sub-then-all":
+                if k == 0 or k == nc - 1:
+                    e, base, g = rng.choice([0, 1, 2]), 0, P
+                else:
+                    e = rng.choice([1, 2])
+                    base, g = group()
+                    g = max(1, min(g, P - 1)); base = min(base, P - g)
+            elif shape == "big-direct":
+                if k % 2 == 0:
+                    e = 2; base, g = group("big")
+                else:
+                    e = 1; base, g = group("small")
+            if e == 0:
+                base, g = 0, P
+            calls.append((e, bs, base, g))
+        flat = [x for c in calls for x in c]
+        out.append((P, rng.randrange(1 << 30), rng.choice(ADVS), 0, rng.randrange(1 << 16), 2, 0, 0, nc) + tuple(flat))
+    return out
+
+
+def hist_calls(c):
+    nc = c[8]
+    return [tuple(c[9 + 4 * k: 13 + 4 * k]) for k in range(nc)]
+
+
+def hist_shape_stats(c, st):
+    cs = hist_calls(c)
+    P = c[0]
+    st["calls"] = st.get("calls", 0) + len(cs)
+    for k, (e, bs, base, g) in enumerate(cs):
+        st["entry:" + ENTRY[e]] = st.get("entry:" + ENTRY[e], 0) + 1
+        if bs == 0:
+            st["empty-block calls"] = st.get("empty-block calls", 0) + 1
+        if g < P:
+            st["subgroup calls"] = st.get("subgroup calls", 0) + 1
+        if e == 2 and g > 5:
+            st["direct exchange above threshold"] = st.get("direct exchange above threshold", 0) + 1
+        if e == 1 and g <= 5:
+            st["recursive entry below threshold"] = st.get("recursive entry below threshold", 0) + 1
+        if k > 0:
+            pb = cs[k - 1][1]
+            key = "zero->data" if pb == 0 and bs > 0 else "data->zero" if pb > 0 and bs == 0 else "same size" if pb == bs else "shrinking" if bs < pb else "growing"
+            st["boundary:" + key] = st.get("boundary:" + key, 0) + 1
+
+
+def judge_history(ctx, i, c, runs, model_lines, model_index, dist, hstat, nbad0):
+    """oracle PER CALL on every rank's receive buffer + co-simulation input of one history run; returns the number of bad items"""
+    P, seed, adv, _, dseed, mode = c[:6]
+    cs = hist_calls(c)
+    dist["P"][P] = dist["P"].get(P, 0) + 1
+    dist["adv"][adv] = dist["adv"].get(adv, 0) + 1
+    dist["hist_len"] = dist.get("hist_len", {})
+    dist["hist_len"][len(cs)] = dist["hist_len"].get(len(cs), 0) + 1
+    hist_shape_stats(c, hstat)
+    ctx.count_case(c, nontrivial=P > 1)
+    if i >= len(runs):
+        ctx.tie_broken("harness output", "run %d missing" % i)
+        return 1
+    r = runs[i]
+    rep = dict(case=list(c), rc=r.rc, report=r.report[:1500], calls=[dict(entry=ENTRY[e], blocksize=bs, base=b, g=g) for e, bs, b, g in cs])
+    key = "history-P%d-n%d" % (P, len(cs))
+    if r.rc != 0:
+        if nbad0 < 3:
+            ctx.violation("schedule:" + key, "a history of %d calls (%s) did not end normally (simmpi code %s): %s"
+                          % (len(cs), ", ".join("%s bs=%d [%d,%d)" % (ENTRY[e], bs, b, b + g) for e, bs, b, g in cs), r.rc, r.report[:300]), rep)
+        return 1
+    nbad = 0
+    outs = []
+    for q in range(P):
+        w = r.outs[q].split()
+        outs.append(b"" if w[1] in ("-", "none") else bytes.fromhex(w[1]))
+    off = 0
+    member_out = [b""] * P
+    for k, (e, bs, base, g) in enumerate(cs):
+        ds = (dseed + 7919 * k) & 0xffffffff
+        blocks = [block(ds, q, bs) for q in range(P)]
+        for q in range(P):
+            got = outs[q][off:off + bs * P]
+            exp = bytearray(b"\xee" * (bs * P))
+            if base <= q < base + g:
+                exp[base * bs:(base + g) * bs] = b"".join(blocks[base:base + g])
+                member_out[q] += got[base * bs:(base + g) * bs]
+            if got != bytes(exp):
+                nbad += 1
+                if nbad0 + nbad <= 3:
+                    rep2 = dict(rep, call=k, rank=q, got=got.hex(), expected=bytes(exp).hex())
+                    ctx.violation("content:%s-call%d" % (key, k), "history, call %d of %d (%s, block size %d, group [%d,%d)): receive buffer of rank %d of %d is "
+                                  "not the blocks of THIS call in rank order" % (k + 1, len(cs), ENTRY[e], bs, base, base + g, q, P), rep2)
+                break
+        off += bs * P
+    if r.mem not in (0, None):
+        ctx.violation("memory:" + key, "sc_memory_status changed by %s over a history of allgather calls" % r.mem, rep)
+    per = mpitrace.rank_events(r.trace, P)
+    for q in range(P):
+        evs = []
+        for ev in mpitrace.canonical_windows(per[q]):
+            if ev[0] == "S":
+                evs.append("S %x %x %s" % (ev[1], ev[2], mpitrace.hexints(ev[3])))
+            elif ev[0] == "R":
+                evs.append("R %s %x %s %s" % (("-1" if ev[1] < 0 else "%x" % ev[1]), ev[2], "%x" % (ev[3] if ev[3] is not None else 0), mpitrace.hexints(ev[4] or b"")))
+        evs.append("O " + mpitrace.hexints(member_out[q]))
+        params = " ".join("%d %x %x %x %s" % (e, bs, base, g, mpitrace.hexints(block((dseed + 7919 * k) & 0xffffffff, q, bs)))
+                          for k, (e, bs, base, g) in enumerate(cs))
+        model_lines.append("%x %x H %s | %s" % (P, q, params, " ; ".join(evs)))
+        model_index.append((i, q))
+    return nbad
 
 
 def run(ctx):
@@ -76,8 +243,13 @@ def run(ctx):
     model_index = []
     dist = {"P": {}, "adv": {}, "bs": {}}
     nbad = 0
+    hstat = {}
+    hbad = 0
     for i, c in enumerate(cases):
-        P, seed, adv, bs, dseed, mode, base, g = c
+        P, seed, adv, bs, dseed, mode, base, g = c[:8]
+        if mode == 2:
+            hbad += judge_history(ctx, i, c, runs, model_lines, model_index, dist, hstat, hbad)
+            continue
         dist["P"][P] = dist["P"].get(P, 0) + 1
         dist["adv"][adv] = dist["adv"].get(adv, 0) + 1
         dist["bs"][bs] = dist["bs"].get(bs, 0) + 1
@@ -154,12 +326,17 @@ def run(ctx):
     ctx.cov["disagreements_checked"] = len(model_lines)
     ctx.cov["rule"] = ("runs of the real sc_allgather on the simulated MPI: P=%s, block sizes 0/1/3/8, random seeds, all 8 scheduler adversaries "
                        "(random, starve one rank, LIFO matching, all-rendezvous, all-eager, minimal completions, lowest/highest rank first), plus "
-                       "sc_allgather_recursive on random subgroups; distinct = distinct (P, seed, adversary, size, data); non-trivial = P > 1"
+                       "sc_allgather_recursive on random subgroups, plus HISTORIES of 2-5 calls (all three entry points, changing block sizes incl. 0 and changing groups, "
+                       "P up to 40) on one communicator without barriers, judged per call; distinct = distinct (P, seed, adversary, size, data); non-trivial = P > 1"
                        % ("1..24" if ctx.quick else "1..48 and 63..128"))
     ctx.notes["distribution"] = dist
+    ctx.notes["history_runs"] = dict(runs=sum(dist.get("hist_len", {}).values()), shapes=hstat)
     for c in cases[:: max(1, len(cases) // 4)][:4]:
-        ctx.sample({"P": c[0], "seed": c[1], "adversary": c[2], "blocksize": c[3], "mode": c[5], "base": c[6], "g": c[7]})
-    ctx.cov["trusted_base"] = ["T1: the message lists of the model (recvs_level, sends_level, recvs_a2a, sends_a2a) are proved EQUAL to the Irecv / Isend calls of Gen/AllgatherC04.v (branches, peers, tags, offsets, byte counts, recursion arguments, datasize and own-block copy of sc_allgather), regenerated from the working tree on every run (tools/c2g + slicelib + clang-14 JSON AST trusted)",
+        ctx.sample({"P": c[0], "seed": c[1], "adversary": c[2], "blocksize": c[3], "mode": c[5], "base": c[6], "g": c[7], "history": list(c[8:])})
+    ctx.cov["trusted_base"] = ["T1: the message lists of the model (recvs_level, sends_level, recvs_a2a, sends_a2a) are proved EQUAL to the Irecv / Isend calls of Gen/AllgatherC04.v (branches, peers, tags, offsets, byte counts, recursion arguments, datasize and own-block copy of sc_allgather), regenerated from the working tree on every run (tools/c2g + slicelib + clang-14 JSON AST trusted); "
+                               "the loop of sc_allgather_alltoall is tied iteration by iteration (generated header + generated one-iteration block incl. request slots, Waitall count, allocation), the whole body of sc_allgather as one generated block, "
+                               "the request slots of the four paths of sc_allgather_recursive as a generated list; tools/c2g/groups_C04.py takes the chained NULL store of the skip branch apart and checks the statement shape of the three functions itself",
+                               "histories: the composition of calls is PROVED (C04_history_*: every interleaving across back-to-back calls, FIFO per (source, destination, tag)); hist_prog is co-simulated against history runs of the real code",
                                "tools/simmpi (simulated MPI: non-overtaking matching, eager/rendezvous sends, completion at Waitall) and its trace",
                                "the per-rank programs of the theorems (allgather_prog) are tied to the C code by co-simulation of every rank's trace; "
                                "the step from the per-rank programs to the global result under all interleavings is PROVED (C04_every_schedule, "
